@@ -507,10 +507,11 @@ class Li(PseudoRiscvInstruction):
         if inrange(self.imm, 12):
             yield Addi(self.rd, R0, self.imm)
         else:
-            if (self.imm & 0x800) != 0:
-                self.imm += 0x1000
-            yield Lui(self.rd, self.imm >> 12)
-            lower_bits = self.imm & 0xFFF
+            imm = self.imm
+            if (imm & 0x800) != 0:
+                imm += 0x1000
+            yield Lui(self.rd, imm >> 12)
+            lower_bits = imm & 0xFFF
             yield Addi(self.rd, self.rd, lower_bits)
 
 
